@@ -4,7 +4,7 @@
 From Coq Require Import List Bool NArith String.
 From PC Require Import Base.Cmp Base.Result Model.Pep440 Spec.Pep440Spec Spec.Specifier Model.VConstraint
      Proofs.VersionFacts Proofs.RangeSpec Proofs.SpecifierAgree.
-From PC Require Import Proofs.UnionHull Proofs.UnionExact Proofs.InterExact Proofs.ParseCompose.
+From PC Require Import Proofs.UnionHull Proofs.UnionExact Proofs.InterExact Proofs.ParseCompose Proofs.Pep440RoundTrip Proofs.ClauseText.
 Import ListNotations.
 Open Scope string_scope.
 
@@ -38,7 +38,30 @@ Theorem C04_regular_candidates : forall r v, wf_rng r = true -> wf v = true -> r
 Proof. exact allows_regular. Qed.
 Print Assumptions C04_regular_candidates.
 
-(* the parser builds exactly these ranges (instances; the general link is the correspondence run) *)
+(* the parser builds exactly these ranges: for EVERY version literal in normal form (every printable v: all that the version
+   parser returns), the text of the clause is followed through the patterns parse_single_constraint tries in order; the
+   version read back is v itself ([reparsed v] = v's fields with the normal form as text).  With the membership theorems above,
+   the text ">=1.2a1" etc. therefore means what PEP 440 says, not only the range object. *)
+Theorem C04_clause_text : forall m v, printable v = true ->
+  parse_single m (">=" ++ to_string v) = Ok (VOne (RR (Some (reparsed v)) None true false)) /\
+  parse_single m ("<=" ++ to_string v) = Ok (VOne (RR None (Some (reparsed v)) false true)) /\
+  parse_single m (">" ++ to_string v) = Ok (VOne (RR (Some (reparsed v)) None false false)) /\
+  parse_single m ("<" ++ to_string v) = Ok (VOne (RR None (Some (reparsed v)) false false)) /\
+  parse_single m ("==" ++ to_string v) = Ok (VOne (RV (reparsed v))) /\
+  parse_single m (to_string v) = Ok (VOne (RV (reparsed v))) /\
+  parse_single m ("!=" ++ to_string v) = Ok (VUnion [RR None (Some (reparsed v)) false false; RR (Some (reparsed v)) None false false]).
+Proof.
+  intros m v P. repeat split; [apply clause_ge|apply clause_le|apply clause_gt|apply clause_lt|apply clause_eq2|apply clause_bare|apply clause_ne]; exact P.
+Qed.
+Print Assumptions C04_clause_text.
+Theorem C04_clause_text_applies : forall s v, parse s = Some v -> printable v = true /\ wf (reparsed v) = true /\ vkey (reparsed v) = vkey v.
+Proof.
+  intros s v H. pose proof (parse_printable s v H) as P. split; [exact P|]. split; [|reflexivity].
+  unfold printable in P. apply Bool.andb_true_iff in P as [W _]. exact W.
+Qed.
+Print Assumptions C04_clause_text_applies.
+
+(* instances with blanks after the operator (the general statement above is for the text without blanks) *)
 Example C04_desugar :
   (exists l, parse "1.2" = Some l /\
      parse_single false ">=1.2" = Ok (VOne (RR (Some l) None true false)) /\
@@ -49,8 +72,9 @@ Example C04_desugar :
      is_final l = true /\ wf l = true).
 Proof. eexists. repeat split; vm_compute; reflexivity. Qed.
 
-(* Not yet theorems at clause level (decided by the correspondence run and the reference oracle only): '!=', '~=',
-   the wildcard clauses, '^', '~' (for ^ and ~ see C15). *)
+(* Not theorems at clause level (decided by the correspondence run and the reference oracle only): the meaning of '!=' as a
+   set (its two half-lines are C04_gt/C04_lt shapes), the wildcard clauses, blanks and upper case inside a clause;
+   for '^', '~', '~=' see C15. *)
 
 (* Proved by composition (every comma set of range-like clauses, every '||' of groups): what _parse_constraint builds from the
    clause lists means the conjunction of the clauses of a group and the disjunction of the groups, for every regular
